@@ -95,7 +95,98 @@ def decode_with_client(dds_text, xdr):
     return dataset, values, reader.data
 
 
-def judge(t, d, tail=b""):
+URL = "http://localhost:8001/d"
+
+
+def stream_paths(t, d, ref, tail, dds_text, heavy=True):
+    """the reference-encoded response through every *streaming* reader of the client, delivered in several
+    chunkings: `StreamReader` directly, `open_dods_url` (application and requests transport) and, for every
+    top-level sequence, `SequenceProxy.__iter__`.  Yields (path, kind, tmpl, model_line, outcome) with
+    outcome = ("ok", data, rest|None, type problems) | ("err", text); kind "full" = the whole dataset,
+    ("seq", i) = variable i; model_line = the same delivery for the Lean model"""
+    from pydap.client import open_dods_url
+    from pydap.handlers.dap import SequenceProxy, unpack_dap2_data, unpack_sequence
+    from pydap.lib import StreamReader
+    from pydap.parsers.dds import dds_to_dataset
+
+    seed = len(ref) * 31 + len(tail)
+    blob = ref + tail
+    ts = X.tmpl_sexp(t)
+    hexs = lambda chunks: "(%s)" % " ".join(hexb(c) for c in chunks)
+    tr = X.TracingBytesReader(blob)
+    try:
+        unpack_dap2_data(tr, dds_to_dataset(dds_text))
+    except Exception:
+        pass
+    # -- StreamReader over an iterator of chunks (what open_dods_url / SequenceProxy wrap the body in)
+    for how in X.CHUNKINGS:
+        chunks = X.chunk(blob, how, seed, tr.reads)
+        try:
+            it = iter(chunks)
+            reader = StreamReader(it)
+            values = unpack_dap2_data(reader, dds_to_dataset(dds_text))
+            probs = []
+            got = X.canon(t, X.decoded_to_raw(values, t), probs)
+            rest = bytes(reader.buf) + b"".join(it)
+            out = ("ok", got, rest, probs)
+        except Exception as e:
+            out = ("err", "%s: %s" % (type(e).__name__, str(e)[:120]))
+        yield ("StreamReader/" + how, "full", t, "xdr-dec-sr %s %s" % (ts, hexs(chunks)), out)
+    # -- open_dods_url: DDS + Data: + bytes served by an application / through the requests transport
+    body = dds_text.encode("ascii") + b"Data:\n" + blob
+    transports = [("app", how) for how in ("whole", "bytes", "last1")] + ([("session", "whole"), ("session-gzip", "whole")] if heavy else [])
+    for tp, how in transports:
+        app = X.CannedApp(dds_text, lambda q: body, chunker=lambda b, how=how: X.chunk(b, how, seed))
+        try:
+            if tp == "app":
+                ds = open_dods_url(URL + ".dods", application=app)
+            else:
+                ds = open_dods_url(URL + ".dods", session=X.wsgi_session(app, gz=tp.endswith("gzip")))
+            probs = []
+            raw = [X.read_decoded_var(ds[c[3] if c[0] == "b" else c[1]], c) for c in t[2]]
+            out = ("ok", X.canon(t, raw, probs), None, probs)
+        except Exception as e:
+            out = ("err", "%s: %s" % (type(e).__name__, str(e)[:120]))
+        yield ("open_dods_url/%s/%s" % (tp, how), "full", t, "xdr-url %s %s" % (ts, hexb(body)), out)
+    # -- SequenceProxy.__iter__ for every top-level sequence (its own response: DDS of the projection + data)
+    for i, (c, x) in enumerate(zip(t[2], d)):
+        if c[0] != "sq":
+            continue
+        tt = ("st", t[1], [c])
+        sdds = X.ref_dds(tt)
+        sref = X.ref_enc(c, x)
+        sbody = sdds.encode("ascii") + b"Data:\n" + sref + tail
+        k = len(sdds) + 6
+        hows = list(X.CHUNKINGS) + ["cut@%d" % k, "cut@%d" % (k - 1), "cut@%d" % (k - 3)]
+        trs = X.TracingBytesReader(sref + tail)
+        template = dds_to_dataset(sdds)[c[1]]
+        try:
+            list(unpack_sequence(trs, template))
+        except Exception:
+            pass
+        for how in hows + (["session", "session-gzip"] if heavy else []):
+            if how.startswith("cut@"):
+                n = int(how[4:])
+                chunker = lambda b, n=n: [b[:n], b[n:]]
+            elif how == "reads":
+                chunker = lambda b: [b[:k]] + X.chunk(b[k:], "reads", seed, trs.reads)
+            else:
+                chunker = lambda b, how=how: X.chunk(b, how if not how.startswith("session") else "whole", seed)
+            app = X.CannedApp(sdds, lambda q: sbody, chunker=chunker)
+            try:
+                kw = {"application": app} if not how.startswith("session") else \
+                    {"session": X.wsgi_session(app, gz=how.endswith("gzip"))}
+                proxy = SequenceProxy(URL, dds_to_dataset(sdds)[c[1]], **kw)
+                rows = list(X.materialise_rows(iter(proxy), c))
+                probs = []
+                out = ("ok", X.canon(c, rows, probs), None, probs)
+            except Exception as e:
+                out = ("err", "%s: %s" % (type(e).__name__, str(e)[:120]))
+            chunks = chunker(sbody) if not how.startswith("session") else X.chunk(sbody, "bytes")
+            yield ("SequenceProxy/" + how, ("seq", i), c, "xdr-seqproxy %s %s" % (X.tmpl_sexp(c), hexs(chunks)), out)
+
+
+def judge(t, d, tail=b"", heavy=True):
     """direct oracle on the implementation for one dataset; returns (failures, artefacts).
     failures: list of (what, observed, expected)"""
     fails = []
@@ -145,6 +236,19 @@ def judge(t, d, tail=b""):
     except Exception as e:
         art["decoded"] = None
         fails.append(("client fails on reference-encoded bytes: %s" % type(e).__name__, repr(e)[:200], pack(d)))
+    # ---- decoder direction, streaming readers: the same bytes in pieces ----------------------------------
+    art["streams"] = []
+    for path, kind, tt, line, out in stream_paths(t, d, ref, tail, dds_text, heavy):
+        exp = d if kind == "full" else d[kind[1]]
+        if out[0] == "err":
+            fails.append(("%s fails on a reference-encoded response: %s" % (path, out[1].split(":")[0]), out[1], pack(exp)))
+        elif out[1] != exp:
+            fails.append(("%s decodes a reference-encoded response to other values" % path, pack(out[1]), pack(exp)))
+        elif out[2] is not None and out[2] != tail:
+            fails.append(("%s leaves other bytes unread than follow the encoding" % path, out[2].hex(), tail.hex()))
+        elif out[3]:
+            fails.append(("%s returns another type or shape" % path, out[3][:3], "declared type/shape"))
+        art["streams"].append((path, kind, tt, line, out))
     return fails, art
 
 
@@ -184,6 +288,16 @@ def check_dataset(ctx, t, d, cases, where, tail=b""):
     else:
         impl = "(err)"
     cases.append(("xdr-dec %s %s" % (ts, hexb(art["ref"] + tail)), impl, meta))
+    for path, kind, tt, line, out in art["streams"]:
+        m2 = dict(meta, path=path)
+        if out[0] == "err":
+            impl = "(err)"
+        elif out[2] is not None:
+            impl = "(ok %s %s)" % (X.data_sexp(tt, out[1]), hexb(out[2]))
+        else:
+            impl = "(ok %s)" % X.data_sexp(tt, out[1])
+        cases.append((line, impl, m2))
+        ctx.tags["stream:" + path.split("@")[0]] += 1
     tg = tags_of(t)
     for g in set(tg):
         ctx.tags[where + ":" + g] += 1
@@ -287,6 +401,10 @@ def explore(ctx, tier, search=False):
             check_dataset(ctx, t, d, cases, "focused")
             if not X.has_seq(t):
                 break
+    # what the decoder reads LAST decides whether its final read has length 0: every kind of last variable
+    for kind, t, d in X.last_variable_datasets(rng, ctx.budget(8, 60)):
+        check_dataset(ctx, t, d, cases, "last")
+        ctx.tags["last-variable:" + kind] += 1
     n = ctx.budget(2500, 40000) * (3 if search else 1)
     for i in range(n):
         t = X.gen_dataset(rng)
